@@ -2,6 +2,12 @@
 #include "vbase.h"
 #include "vstr.h"
 #include "gen_types.h"
+struct Message { vstr m_level; };
+struct MessageMap { int dummy; };
+struct Message g_found[3]; _Bool g_present[3]; unsigned g_lookups;
+static inline _Bool env_circuit_empty(const vstr* c) { return c->n == 0; }
+/* the map of messages by name: key 1 = circuit + name, key 2 = name only; some available message of that name, or none */
+static inline struct Message* env_lookup(int key) { g_lookups = g_lookups + 1; __CPROVER_assert(key == 1 || key == 2, "lookup key"); return g_present[key] ? &g_found[key] : NULL; }
 #include "gen_protos.h"
 #include "gen_funcs.inc"
 
@@ -28,4 +34,24 @@ void h_checkLevel(void) {
   __CPROVER_assert(r == expect, "[C16] access is granted iff the level is empty, the list is \"*\", or the level is exactly one of the ';'-separated tokens (no prefix/suffix/infix match)");
   if (r && level.n == 2 && list.n >= 5) { CANARY("token in the middle"); }
   if (!r && level.n >= 1 && list.n >= 3) { CANARY("denied"); }
+}
+
+static inline _Bool spec_granted(const vstr* level, const vstr* list) {
+  return level->n == 0 ? 1 : list->n == 0 ? 0 : (list->n == 1 && list->d[0] == '*') ? 1 : spec_token_member(level, list);
+}
+/* lookup by circuit and name on behalf of a client: a message is only handed out if the client's level list grants its level */
+void h_find_by_name(void) {
+  struct MessageMap mm; vstr circuit = nondet_vstr(), name = nondet_vstr(), levels = nondet_vstr();
+  for (int k = 1; k <= 2; k++) { g_found[k].m_level = nondet_vstr(); g_present[k] = nondet_bool(); __CPROVER_assume(vstr_valid(&g_found[k].m_level));
+    for (size_t j = 0; j < VSTR_CAP; j++) { if (j < g_found[k].m_level.n) __CPROVER_assume(g_found[k].m_level.d[j] != ';' && g_found[k].m_level.d[j] != 0); } }
+  __CPROVER_assume(vstr_valid(&circuit) && vstr_valid(&name) && vstr_valid(&levels)); g_lookups = 0;
+  for (size_t j = 0; j < VSTR_CAP; j++) { if (j < levels.n) __CPROVER_assume(levels.d[j] != 0); }
+  struct Message* r = MM_find_by_name(&mm, &circuit, &name, &levels, nondet_bool(), nondet_bool());
+  if (r != NULL) {
+    __CPROVER_assert(r == &g_found[1] || (r == &g_found[2] && circuit.n == 0), "[C16] the message found is the one of that circuit and name (without circuit only if none was given)");
+    __CPROVER_assert(spec_granted(&r->m_level, &levels), "[C16] a message is handed out by name only if the client's level list contains exactly its level (or is *, or the message has no level)");
+    CANARY("found");
+  }
+  if (g_present[1] && spec_granted(&g_found[1].m_level, &levels)) { __CPROVER_assert(r == &g_found[1], "[C16] a message the client is granted is found"); }
+  if (g_present[1] && !spec_granted(&g_found[1].m_level, &levels) && !(circuit.n == 0 && g_present[2])) { __CPROVER_assert(r == NULL, "[C16] a message of a level the client is not granted is not handed out"); CANARY("denied by level"); }
 }
